@@ -9,7 +9,7 @@ from props import _worldfam as F
 
 PID = 'C13'
 GENERATORS = ['consts']
-LEAN_TARGETS = ['EosProofs.Props.C13']
+LEAN_TARGETS = ['EosProofs.Props.C13', 'EosProofs.Props.C13World']
 DRIVERS = ['drv_world']
 TRUSTED = F.WORLD_TRUSTED
 RULE = ('(1) exhaustive: all 24 orders of {put target ship on its fit, add projecting module, activate it, set target} and '
@@ -25,7 +25,7 @@ CLAUSES = {
     'a running projectable effect modifies exactly its current target (item filter) / the items aboard a targeted ship (location filters)': 'spec lemmas affectsProjected_item_iff, affectsProjected_location_iff, projectionTargets_eq + correspondence',
     'a running fleet boost reaches exactly the ships of the boosting fit and of fits in the same fleet': 'spec lemma mem_boostTargets + correspondence',
     're-targeting / stopping / joining / leaving update immediately': 'the spec is a function of the current configuration; impl tied by histories; machine-level: C01',
-    'outcome independent of set-up order': 'setup_order_irrelevant (machine level, for legal removal sets) ; exhaustive order enumeration on impl; K1 orders are a known finding',
+    'outcome independent of set-up order': 'proved at message level: C13World.setup_order_irrelevant_world (two legal message histories ending in settled states of the same configuration observe the same values, both the from-scratch table), retarget_immediate_world; exhaustive order enumeration on impl; K1 orders are a known finding',
 }
 LEVEL_TEXT = ('Lean: exact characterisation of the affected set of projected modifiers and fleet boosts in the spec, and '
               'order-independence at machine level; tie: exhaustive enumeration of set-up/tear-down orders on the real '
